@@ -188,8 +188,12 @@ def main(ctx):
             if spelling == "home":
                 os.environ["HOME"] = rec.tmp
             import pathlib
+            if spelling.startswith("relative"):
+                # a bare / dotted relative name, the process sitting in the directory (every history runs in its own child)
+                os.chdir(rec.tmp)
+                os.makedirs(os.path.join(rec.tmp, "sub"), exist_ok=True)
             fn = {"plain": fnr, "env": "$C03DIR/c03_%s.rec" % dk, "home": "~/c03_%s.rec" % dk,
-                  "pathlib": pathlib.Path(fnr)}[spelling]
+                  "pathlib": pathlib.Path(fnr), "relative": "c03_%s.rec" % dk, "relative-dotted": "./sub/../c03_%s.rec" % dk}[spelling]
             m = dict(exists=False, delim=None, hdr=None, n=0, empty=False)
             h = None       # model of the open handle: dict(mode, first)
             sf = None
@@ -349,9 +353,10 @@ def main(ctx):
                                   bad_kinds=BADKINDS, headers=len(HDRS)))
 
     # the same world with the path spelled through an environment variable / through ~
-    for sp in ctx.pick(["env", "pathlib"], ["env", "home", "pathlib"]):
+    for sp in ctx.pick(["env", "pathlib", "relative"], ["env", "home", "pathlib", "relative", "relative-dotted"]):
         ctx.histories("sfile-world(A,path:%s)" % sp, [()], pristine(make_world("A", sp)), depth=ctx.pick(3, 5), nodedup_depth=ctx.pick(1, 2),
-                      bounds=dict(path_spelling={"env": "$C03DIR/name", "home": "~/name", "pathlib": "pathlib.Path(name)"}[sp]))
+                      bounds=dict(path_spelling={"env": "$C03DIR/name", "home": "~/name", "pathlib": "pathlib.Path(name)", "relative": "name (cwd = directory)",
+                                                "relative-dotted": "./sub/../name"}[sp]))
 
     # seeded from non-initial states: pre-existing files written through other routes
     seeds = [
@@ -363,11 +368,16 @@ def main(ctx):
                   bounds=dict(seeds=len(seeds)))
 
     # ------------------------------------------------- world 2: header-less recfile
-    def execute2(hist, rec):
+    def execute2(hist, rec, spelling="plain"):
         dk = "A"
-        fn = os.path.join(rec.tmp, "c03_plain.bin")
-        if os.path.exists(fn):
-            os.unlink(fn)
+        fnr = os.path.join(rec.tmp, "c03_plain.bin")
+        if os.path.exists(fnr):
+            os.unlink(fnr)
+        # the path as the caller spells it (the oracle always looks at the real path)
+        os.environ["C03DIR"] = rec.tmp
+        if spelling == "relative":
+            os.chdir(rec.tmp)
+        fn = {"plain": fnr, "env": "$C03DIR/c03_plain.bin", "relative": "c03_plain.bin"}[spelling]
         m = dict(exists=False, delim=None, n=0)
         r = None
         hmode = None
@@ -402,17 +412,17 @@ def main(ctx):
                     raise ValueError(op)
                 if i == len(hist) - 1 and r is None and m["exists"] and m["n"] > 0:
                     exp = chunk(dk, 0, m["n"])
-                    raw = open(fn, "rb").read()
+                    raw = open(fnr, "rb").read()
                     if m["delim"] is None and raw != exp.tobytes():
                         rec.fail(hist, "file bytes are not the concatenation of the chunks (%d bytes, expected %d)"
                                  % (len(raw), exp.nbytes))
                         return None
-                    got = recfile.read(fn, dt, delim=m["delim"])
+                    got = recfile.read(fnr, dt, delim=m["delim"])
                     msg = T.same_table(got, exp)
                     if msg:
                         rec.fail(hist, "recfile.read: %s" % msg)
                         return None
-                    got = recfile.read(fn, dt, delim=m["delim"], nrows=m["n"])
+                    got = recfile.read(fnr, dt, delim=m["delim"], nrows=m["n"])
                     msg = T.same_table(got, exp)
                     if msg:
                         rec.fail(hist, "recfile.read(nrows=): %s" % msg)
@@ -431,7 +441,7 @@ def main(ctx):
                     r.close()
                 except Exception:
                     pass
-        raw = open(fn, "rb").read() if os.path.exists(fn) else None
+        raw = open(fnr, "rb").read() if os.path.exists(fn) else None
         key = (hashlib.sha1(raw).hexdigest() if raw is not None else None, hstate, m["exists"], m["delim"],
                m["n"], hmode)
         ops = []
@@ -455,6 +465,9 @@ def main(ctx):
 
     ctx.histories("recfile-world", [()], pristine(execute2), depth=ctx.pick(5, 7), nodedup_depth=2,
                   bounds=dict(nmax=NMAX))
+    for sp in ("env", "relative"):
+        ctx.histories("recfile-world(path:%s)" % sp, [()], pristine(lambda hist, rec, _sp=sp: execute2(hist, rec, _sp)), depth=ctx.pick(3, 5), nodedup_depth=ctx.pick(1, 2),
+                      bounds=dict(path_spelling={"env": "$C03DIR/name", "relative": "name (cwd = directory)"}[sp]))
 
     # ------------------------------------------------- world 3: two files alive at the same time
     # Two paths (file 0 holds dtype A, file 1 dtype B), each with at most one open SFile handle, events on
